@@ -444,6 +444,15 @@ class ImplRun:
                 return g.set_bounds(name, tuple(float(v) if v is not None else None for v in lo),
                                     tuple(float(v) if v is not None else None for v in hi))
             return g.set_bounds(name, to_py(lo), to_py(hi))
+        if op == "trace":
+            # oracle-only command (not in the model): ("trace", shape, args, kwargs)
+            args = [tuple(float(v) for v in a) if isinstance(a, (list, tuple)) and a and not isinstance(a[0], (list, tuple))
+                    else ([tuple(float(v) for v in q) for q in a] if isinstance(a, (list, tuple)) else a) for a in c[2]]
+            return getattr(g.trace, c[1])(*args, **{k: (float(v) if isinstance(v, Fraction) else v) for k, v in c[3].items()})
+        if op == "set_direction":
+            return g.set_direction(c[1])
+        if op == "set_resolution":
+            return g.set_resolution(float(c[1]))
         if op == "add_hook":
             h = c[1]
             if h[1] not in self.hooks:
@@ -553,7 +562,8 @@ def compare_step(mi, ii, fields=None, tol=None):
         return "implementation emitted a malformed line: %r" % ii["raw"]
     if mi["lines"] != ii["lines"]:
         return "emitted words: model %s, implementation %s" % (fmt_lines(mi["lines"]), ii["raw"])
-    if mi["calls"] != ii["calls"]:
+    nonfinite_call = any(not isinstance(v, Fraction) for c in ii["calls"] for pt in c[1:] for v in pt if v is not None)
+    if not nonfinite_call and mi["calls"] != ii["calls"]:
         return "hook calls: model %s, implementation %s" % (mi["calls"], ii["calls"])
     for k, v in mi["snap"].items():
         if fields is not None and k not in fields:
@@ -830,7 +840,12 @@ class Gen:
             k = r.random()
             if k < 0.5:
                 return ("add_hook", ("record", i))
-            return ("add_hook", ("set", i, r.choice(["A", "B", "F"]), self.dy(0, 100, 2)))
+            k = r.choice(["A", "B", "F", "F", "S"])
+            v = self.scalar("feed-rate", [Fraction(100), Fraction(2400)]) if k == "F" else \
+                (self.scalar("tool-power", [Fraction(0), Fraction(500)]) if k == "S" else self.dy(0, 100, 2))
+            if not isinstance(v, Fraction):
+                v = Fraction(7)
+            return ("add_hook", ("set", i, k, v))
         raise ValueError(op)
 
     def tool_number(self):
